@@ -186,6 +186,17 @@ impl WsConn {
             }
         }
     }
+    /// the connection just goes away (no closing handshake), optionally with a reset
+    pub fn drop_abruptly(self, reset: bool) {
+        if reset {
+            use std::os::unix::io::AsRawFd;
+            let l = libc::linger { l_onoff: 1, l_linger: 0 };
+            unsafe {
+                libc::setsockopt(self.s.as_raw_fd(), libc::SOL_SOCKET, libc::SO_LINGER, &l as *const _ as *const libc::c_void, std::mem::size_of::<libc::linger>() as libc::socklen_t);
+            }
+        }
+        drop(self);
+    }
     /// closing handshake; true when the server answered it (its on_close has run by then or runs right after)
     pub fn close_and_wait(mut self) -> bool {
         let _ = self.send_frame(8, &1000u16.to_be_bytes());
